@@ -36,4 +36,10 @@ META = {
   "note": "Trusts the id-list view model (kit-free, in the test) and kit/tok for reading updates off the wire; UpdateWriter can only be obtained through a server connection, so Poll is driven by NOOP / FETCH commands.",
   "technique": "stateful property-based testing (rapid t.Repeat) against a reference model of client views",
  },
+ "C05": {
+  "text": "Model-based search: generated command histories with generated backend outcomes against a real imapserver (plaintext, STARTTLS and implicit TLS over in-memory pipes) whose session is a recording stub, compared step by step with a reference connection state machine; the evidence reports the (state x command) cells reached. Sampling of histories, not proof.",
+  "design_ref": "DESIGN.md 3/C05",
+  "note": "Trusts the reference state table in harness/c05 (derived from RFC 9051 section 3/6 and RFC 8437), kit/tok for reading responses, and crypto/tls for the transport.",
+  "technique": "stateful property-based testing (rapid) against a reference state machine with recording stub backend",
+ },
 }
